@@ -3,6 +3,7 @@ import GdcVerif.Lemmas.JpegAddr
 import GdcVerif.Lemmas.JpegAddrFull
 import GdcVerif.Lemmas.JpegAc
 import GdcVerif.Lemmas.JpegDri
+import GdcVerif.Lemmas.JpegScan
 /-!
   C15 — JPEG DCT streams and decoders agree with an independent implementation.  PARTIAL.
 
@@ -19,8 +20,17 @@ import GdcVerif.Lemmas.JpegDri
     exactly before MCUs Ri, 2Ri, … (T.81 E.1.4).
   * `c15_ac_runlength_roundtrip`: the decoder's AC run/size loop inverts the encoder's for every coefficient block
     (symbol level; tied to baseline.Decode by `jpg-acblock`, to the reference encoder by `jpg-acsyms`).
+  * `baseline_scan_symbols_roundtrip`: block order, DC prediction and run-length coding round-trip at the symbol level
+    for grey and 4:4:4 (encoder side tied to baseline.Encode by `jpg-scan-enc`); the bit-level statement is a `def` with
+    the one missing lemma named.
   * `c15_dri_value`: the generated parseDRI expression is the 16-bit Ri (typed 8-bit shift semantics).
   * `c15_repack_tight`: DecodeSimple's grey row copy reads inside Pix and fills width·height samples bijectively.
+
+  WHAT COMPOSES for foreign (subsampled) streams: `c15_addressing` covers every H, V ∈ 1..4 and every size, so the decoder
+  model is  bytes → [bit-level reader: missing lemma] → symbols → `decBlocks` over `JpegAddr.walk` order (with
+  `mcuInterval` resets when DRI > 0) → per-block `idctF` with the component's table → `shown` pixel map → ycbcrToRGB.
+  Every arrow except the bit-level reader is a theorem or a generated kernel; the up-sampling by replication is part of
+  `specOrdinal`.  Numeric agreement with image/jpeg (its IDCT and colour arithmetic differ) stays differential testing.
 -/
 namespace JpegAddr
 set_option maxRecDepth 100000
@@ -136,3 +146,42 @@ example : encAC (List.replicate 62 0 ++ [5]) 0 = [ZRL, ZRL, ZRL, (14 * 16 + 3, 5
     decodeAC [ZRL, ZRL, ZRL, (14 * 16 + 3, 5)] = some (List.replicate 62 0 ++ [5]) := by decide
 
 end JpegAc
+
+namespace JpegScan
+
+/-- (5) the baseline scan at the level of Huffman SYMBOLS: for any MCU-ordered list of (component, block) — greyscale
+    (one component) and 4:4:4 (Y, Cb, Cr per block position) alike, any number of blocks — decodeBlock's symbol
+    consumption (DC: `dcPred += EXTEND`, AC loop) applied to the symbols encodeBlock emits (DC difference against the
+    per-component predictor, category coding, run-length coding) returns exactly the quantised coefficient blocks.
+    Hypotheses: 63 AC coefficients per block with |v| < 2^15, DC values and initial predictors below 2^30 in magnitude
+    (the 8-bit codecs stay below 2^11).  Composition of `c15_ac_runlength_roundtrip`, `c11_category_roundtrip` and the
+    DC prediction.  The encoder side of this model (`encBlocks` over `quantF ∘ fdctF` of the planes) is tied to the real
+    baseline.Encode by `jpg-scan-enc` (the Huffman symbols decoded from the real stream), the decoder side by
+    `jpg-acblock` and the whole-image ops `jpg-greyimage` / `jpg-rgbimage`. -/
+theorem baseline_scan_symbols_roundtrip (l : List (Nat × Block)) (pred : Nat → Int)
+    (hl : ∀ b ∈ l, b.2.2.length = 63 ∧ (∀ v ∈ b.2.2, v.natAbs < 2 ^ 15) ∧ b.2.1.natAbs < 2 ^ 30)
+    (hp : ∀ c, (pred c).natAbs < 2 ^ 30) :
+    decBlocks pred (l.map (·.1)) (encBlocks pred l) = some l := scan_symbols_roundtrip l pred hl hp
+example : encBlocks (fun _ => 0) [(0, (5, List.replicate 63 0)), (0, (3, 7 :: List.replicate 62 0))] =
+    [((3, 5), [JpegAc.EOB]), ((2, 1), [(3, 7), JpegAc.EOB])] := by decide
+
+/-- The bit-level statement `decodeScan (encodeScan coeffBlocks) = coeffBlocks` for baseline grey / 4:4:4 (entropy-coded
+    BYTES, with the per-image optimal tables).  NOT proved here.  What composes, and the one missing lemma:
+    * symbols: `baseline_scan_symbols_roundtrip` (this file);
+    * tables: `JLL.optimal_table_valid_any_alphabet` (Props/C02) — the DC and AC tables built from the counted symbols are
+      valid and contain every emitted symbol (total count < 9 227 464 per table, `optimal_table_depth_from_total`);
+    * codes and bits: `JLL.canonical_decode_encode_thm` (a symbol's code followed by anything decodes to that symbol and
+      consumes exactly its bits), `JLL.huffbits_roundtrip_thm` / `readBits_correct` (WriteBits/Flush vs ReadBit(s), stuffing);
+    * MISSING: the fused reader lemma for the DCT scan — wp-jll's `entropy_layer_roundtrip` reads a list of
+      (category, amplitude) symbols with ONE table; the DCT decoder alternates a DC table and an AC table per component and
+      decides from the symbols read so far (k, EOB, ZRL) which table comes next.  Needed: for a tagged symbol list
+      [(table, symbol, amplitude)] written with `symWrites` per tag, the code-shaped bit-level decodeBlock loop returns the
+      same symbols that `decBlocks` consumes — an induction of the same shape as `entropy_roundtrip` with the table chosen by
+      the tag, plus `decAC`'s control flow.
+    `enc`/`dec` stand for the byte-level scan encoder / decoder. -/
+def baseline_scan_roundtrip_FullStatement (enc : List (Nat × Block) → Option (List Nat))
+    (dec : List Nat → List Nat → Option (List (Nat × Block))) : Prop :=
+  ∀ l : List (Nat × Block), (∀ b ∈ l, b.2.2.length = 63 ∧ (∀ v ∈ b.2.2, v.natAbs < 2 ^ 11) ∧ b.2.1.natAbs < 2 ^ 11) →
+    ∃ bytes, enc l = some bytes ∧ dec (l.map (·.1)) bytes = some l
+
+end JpegScan
